@@ -20,6 +20,8 @@ for res in sorted(glob.glob('/root/scratch/seed_results/C*-*.json')):
         print('NOT CONFIRMED', name, d.get('tests'), d.get('demo_clean_rc'), d.get('demo_mutant_rc'))
         continue
     dst = os.path.join('/verif/seeded', name)
+    if src.startswith('/verif/seeded/') or (os.path.exists(os.path.join(dst, 'meta.json')) and os.path.getmtime(os.path.join(dst, 'meta.json')) > os.path.getmtime(res)):
+        continue          # already kept and refreshed by a later regression run (tools/update_seed_meta.py)
     os.makedirs(dst, exist_ok=True)
     for f in ('patch.diff', 'demo.py'):
         shutil.copy(os.path.join(src, f), os.path.join(dst, f))
